@@ -11,7 +11,6 @@ verus! {
 type Result<T> = std::result::Result<T, Error>;
 type BE = shim_core::BE;
 global size_of usize == 8;
-broadcast use shim_core::lemma_skip_skip;
 
 // ---------------- src/game/shift_jis.rs ----------------
 //@struct src/game/shift_jis.rs MeleeString
@@ -133,10 +132,11 @@ pub open spec fn end_players(p: Seq<i8>, n: int) -> Seq<game::PlayerEnd> decreas
 //@after let players = if_more
 	proof {
 		let b = (*old(r))@;
-		if b.len() >= 6 { assert(Seq::new(4, |i: int| skip(b, 2)[i] as i8) =~= Seq::new(4, |i: int| b[2 + i] as i8)); }
+		if b.len() >= 6 { lemma_skip_skip(b, 1, 1); assert(Seq::new(4, |i: int| skip(b, 2)[i] as i8) =~= Seq::new(4, |i: int| b[2 + i] as i8)); }
 	}
 //@before let placements
 		let ghost r0 = *r;
+		proof { broadcast use shim_core::lemma_skip_skip; }
 //@loop 1
 		invariant n <= 4, NUM_PORTS == 4, err__ is None ==> out__@ == end_players(placements@, n as int),
 			placements@ == Seq::new(4, |i: int| r0@[i] as i8),
@@ -164,6 +164,97 @@ fn player(port: Port, v0: &[u8; 36], is_teams: bool, v1_0: Option<[u8; 8]>, v1_3
 		res is Ok == (player_spec(port, v0@, is_teams, opt_arr(v1_0), opt_arr(v1_3), opt_arr(v3_9_name), opt_arr(v3_9_code), opt_arr(v3_11)) is Some),
 		res is Ok ==> res->Ok_0 == player_spec(port, v0@, is_teams, opt_arr(v1_0), opt_arr(v1_3), opt_arr(v3_9_name), opt_arr(v3_9_code), opt_arr(v3_11))->Some_0,
 { unimplemented!() }
+
+// ---- Game Start: contract transcribed from spec/game_start_layout.json (offsets index the raw block) ----
+pub uninterp spec fn utf8_decode(b: Seq<u8>) -> Option<Seq<char>>;
+pub struct Utf8Error;
+#[verifier::external_body]
+pub fn str_from_utf8(b: &[u8]) -> (r: std::result::Result<&str, Utf8Error>)
+	ensures (r is Ok) == (utf8_decode(b@) is Some), r is Ok ==> r->Ok_0@ == utf8_decode(b@)->Some_0
+{ unimplemented!() }
+// `result.map(String::from).map_err(invalid_data)`
+#[verifier::external_body]
+pub fn utf8_result_to_string(r: std::result::Result<&str, Utf8Error>) -> (out: std::result::Result<String, IoError>)
+	ensures (out is Ok) == (r is Ok), out is Ok ==> out->Ok_0@ == r->Ok_0@
+{ unimplemented!() }
+
+pub open spec fn recs<const K: usize, const M: usize>(a: [[u8; K]; M], b: Seq<u8>, base: int) -> bool {
+	forall|i: int, j: int| 0 <= i < M && 0 <= j < K ==> #[trigger] a@[i]@[j] == b[base + i * K + j]
+}
+pub open spec fn opt_rec(b: Seq<u8>, present: bool, base: int, k: int, i: int) -> Option<Seq<u8>> {
+	if present { Some(b.subrange(base + k * i, base + k * i + k)) } else { None }
+}
+// the player of port i as a function of the block: the per-port slices named by the spec table
+pub open spec fn port_player(b: Seq<u8>, i: int) -> Option<Option<Player>> {
+	player_spec(port_of_byte(i as u8), b.subrange(100 + 36 * i, 136 + 36 * i), b[12] != 0,
+		opt_rec(b, b.len() > 320, 320, 8, i), opt_rec(b, b.len() > 352, 352, 16, i),
+		opt_rec(b, b.len() > 420, 420, 31, i), opt_rec(b, b.len() > 420, 544, 10, i), opt_rec(b, b.len() > 584, 584, 29, i))
+}
+// players are listed for ports 0..n in port order, a port without a player (type byte not human/CPU/demo) is left out
+pub open spec fn start_players(b: Seq<u8>, n: int) -> Seq<Player> decreases n {
+	if n <= 0 { Seq::empty() } else {
+		let rest = start_players(b, n - 1);
+		match port_player(b, n - 1) { Some(Some(p)) => rest.push(p), _ => rest }
+	}
+}
+pub open spec fn start_players_ok(b: Seq<u8>, n: int) -> bool decreases n {
+	if n <= 0 { true } else { start_players_ok(b, n - 1) && port_player(b, n - 1) is Some }
+}
+pub open spec fn tail_bool(b: Seq<u8>, off: int) -> Option<bool> { if b.len() > off { Some(b[off] != 0) } else { None } }
+
+//@fn src/io/slippi/de.rs | - | game_start | ret=res | inline_if_more | sub=/r.to_vec()/slice_to_vec_u8(*r)/ | sub=/buf.iter().position(|&x| x == 0).unwrap_or(50)/first_index_of(&buf, 0).unwrap_or(50)/ | sub=/std::str::from_utf8(/str_from_utf8(/ | sub=/result.map(String::from).map_err(invalid_data)/utf8_result_to_string(result)/ | sub=/let r#match = /let match__ = / | sub=/		r#match,/		r#match: match__,/
+	ensures
+		res is Ok ==> ({
+			let b = (*old(r))@;
+			let s = res->Ok_0;
+			&&& b.len() >= 320
+			&&& s.bytes.0@ == b /*[C05.start_raw_block_retained]*/
+			&&& s.slippi.version == Version(b[0], b[1], b[2]) /*[C05.version_at_0]*/
+			&&& s.bitfield@ == b.subrange(4, 8) /*[C05.bitfield_at_4]*/
+			&&& s.is_raining_bombs == (b[10] != 0) /*[C05.raining_bombs_at_10]*/
+			&&& s.is_teams == (b[12] != 0) /*[C05.is_teams_at_12]*/
+			&&& s.item_spawn_frequency == b[15] as i8 /*[C05.item_spawn_frequency_at_15]*/
+			&&& s.self_destruct_score == b[16] as i8 /*[C05.self_destruct_score_at_16]*/
+			&&& s.stage == be_u16(b, 18) /*[C05.stage_at_18]*/
+			&&& s.timer == be_u32(b, 20) /*[C05.timer_at_20]*/
+			&&& s.item_spawn_bitfield@ == b.subrange(39, 44) /*[C05.item_spawn_bitfield_at_39]*/
+			&&& s.damage_ratio == be_f32(b, 52) /*[C05.damage_ratio_at_52]*/
+			&&& s.random_seed == be_u32(b, 316) /*[C05.random_seed_at_316]*/
+			&&& s.is_pal == tail_bool(b, 416) /*[C05.is_pal_at_416_iff_len_gt_416]*/
+			&&& s.is_frozen_ps == tail_bool(b, 417) /*[C05.frozen_ps_at_417_iff_len_gt_417]*/
+			&&& (s.scene is Some) == (b.len() > 418) && (b.len() > 418 ==> b.len() >= 420 && s.scene->Some_0.minor == b[418] && s.scene->Some_0.major == b[419]) /*[C05.scene_at_418]*/
+			&&& (s.language is Some) == (b.len() > 700) && (b.len() > 700 ==> language_of(b[700]) == Some(s.language->Some_0)) /*[C05.language_at_700]*/
+			&&& (s.r#match is Some) == (b.len() > 701) && (b.len() > 701 ==> b.len() >= 760
+					&& s.r#match->Some_0.game == be_u32(b, 752) && s.r#match->Some_0.tiebreaker == be_u32(b, 756)) /*[C05.match_at_701]*/
+			&&& start_players_ok(b, 4) && s.players@ == start_players(b, 4) /*[C05.players_by_port_from_their_slices]*/
+			// a block that ends inside an optional tail is rejected (length classes 320, 352, 416, 417, 418, 420, 584, 700, 701, 760)
+			&&& (b.len() == 320 || b.len() == 352 || b.len() == 416 || b.len() == 417 || b.len() == 418 || b.len() == 420 || b.len() == 584 || b.len() == 700 || b.len() == 701 || b.len() >= 760) /*[C05.length_classes]*/
+		}),
+//@loop 1
+		invariant
+			n <= 4, NUM_PORTS == 4, (*old(r))@.len() >= 320,
+			is_teams == ((*old(r))@[12] != 0),
+			recs(players_v0, (*old(r))@, 100),
+			(players_v1_0 is Some) == ((*old(r))@.len() > 320), players_v1_0 is Some ==> (*old(r))@.len() >= 352 && recs(players_v1_0->Some_0, (*old(r))@, 320),
+			(players_v1_3 is Some) == ((*old(r))@.len() > 352), players_v1_3 is Some ==> (*old(r))@.len() >= 416 && recs(players_v1_3->Some_0, (*old(r))@, 352),
+			(players_v3_9 is Some) == ((*old(r))@.len() > 420), players_v3_9 is Some ==> (*old(r))@.len() >= 584 && recs(players_v3_9->Some_0.0, (*old(r))@, 420) && recs(players_v3_9->Some_0.1, (*old(r))@, 544),
+			(players_v3_11 is Some) == ((*old(r))@.len() > 584), players_v3_11 is Some ==> (*old(r))@.len() >= 700 && recs(players_v3_11->Some_0, (*old(r))@, 584),
+			err__ is None ==> out__@ == start_players((*old(r))@, n as int) && start_players_ok((*old(r))@, n as int),
+		decreases 4 - n + (if err__ is None { 1int } else { 0int }),
+//@before player(
+		proof {
+			let b = (*old(r))@;
+			let i = n as int;
+			assert(players_v0@[i]@ =~= b.subrange(100 + 36 * i, 136 + 36 * i));
+			if players_v1_0 is Some { assert(players_v1_0->Some_0@[i]@ =~= b.subrange(320 + 8 * i, 320 + 8 * i + 8)); }
+			if players_v1_3 is Some { assert(players_v1_3->Some_0@[i]@ =~= b.subrange(352 + 16 * i, 352 + 16 * i + 16)); }
+			if players_v3_9 is Some {
+				assert(players_v3_9->Some_0.0@[i]@ =~= b.subrange(420 + 31 * i, 420 + 31 * i + 31));
+				assert(players_v3_9->Some_0.1@[i]@ =~= b.subrange(544 + 10 * i, 544 + 10 * i + 10));
+			}
+			if players_v3_11 is Some { assert(players_v3_11->Some_0@[i]@ =~= b.subrange(584 + 29 * i, 584 + 29 * i + 29)); }
+		}
+//@end
 
 } // verus!
 fn main() {}
